@@ -20,6 +20,8 @@ def gen(rng, tier):
     for _ in range(n):
         fr = gen_dm.make_frame(rng)
         nrows = len(fr["columns"][0]["values"])
+        # a numeric column with a large offset and a small spread (time stamps)
+        fr["columns"].append(dm.col("t", "float", [f"{7 * 10 ** 6 + rng.randint(0, 280)}/7" for _ in range(nrows)]))
         perm = list(range(nrows))
         rng.shuffle(perm)
         idx_kind = rng.choice(["dup", "float", "str", "rev", "perm", "perm"])
@@ -35,7 +37,12 @@ def gen(rng, tier):
                         c["values"][r] = None
         # stateful multi-column transforms see a pandas Series (with that index), not an array
         atoms = gen_dm.NUM_ATOMS + (["bs(x, df=4)", "poly(z, 2)", "bs(w, df=3, degree=2)"] if kind != "with-missing" else [])
-        cases.append({"formula": gen_dm.rand_formula(rng, with_group=0.4, num_atoms=atoms), "frame": fr, "na": "drop", "perm": perm,
+
+        fml = gen_dm.rand_formula(rng, with_group=0.4, num_atoms=atoms)
+        if kind != "with-missing" and rng.random() < 0.35:
+            # as a term of its own: in a product the ten digits the offset costs would exceed the comparison tolerance
+            fml += rng.choice([" + scale(t)", " + standardize(t)", " + center(t)"])
+        cases.append({"formula": fml, "frame": fr, "na": "drop", "perm": perm,
                       "index": idx_kind, "colperm": colperm, "kind": kind})
     return cases
 
